@@ -173,12 +173,18 @@ def check_neighbourhood_records(ctx, label, cfg, nbhd, sizes, arms, spec, tr, ti
 
 def run_case(rs, ctx):
     absent = ctx.index % 3 == 0
-    spec = simgen.gen_simulation(rs, n_rows=(20, 200) if ctx.index % 4 == 0 else (20, 70), absent_arm=absent)
-    if absent:
+    big = ctx.tier == "thorough" and ctx.index == 1
+    if big:
+        spec = simgen.gen_big_simulation(rs, is_quick=False)
+        ctx.count("multi_chunk_simulations")
+    else:
+        spec = simgen.gen_simulation(rs, n_rows=(20, 200) if ctx.index % 4 == 0 else (20, 70), absent_arm=absent)
+    if absent and not big:
         spec["params"]["is_ordered"] = True
     p = spec["params"]
     bandits = [("b%d" % i, gen.build(c)) for i, c in enumerate(spec["cfgs"])]
-    wit = {"simulation": {k: spec[k] for k in ("cfgs", "d", "r", "X", "params")}}
+    wit = {"simulation": {k: spec[k] for k in ("cfgs", "d", "r", "X", "params")}} if not big else \
+        {"simulation": {"cfgs": spec["cfgs"], "params": spec["params"], "data": "gen_big_simulation (102000 rows, regenerated from the case index)"}}
     try:
         sim = simgen.run_simulator(spec, list(bandits))
     except KeyError as ex:
@@ -231,7 +237,14 @@ def run_case(rs, ctx):
             return
         nn = cfg["np"]["kind"] in ("radius", "knn", "lsh")
         nbhd = list(sim.bandit_to_arm_to_stats_neighborhoods[name]) if nn and not p["is_quick"] else None
-        if nbhd is not None and cfg["np"]["kind"] in ("radius", "knn") and spec["X"] is not None:
+        if nbhd is not None and big:
+            ctx.ev()
+            if len(nbhd) != len(ti) or len(sim.bandit_to_neighborhood_size[name]) != len(ti):
+                ctx.violation("%s (%s): %d neighbourhood records / %d sizes for %d test rows" % (
+                    name, gen.cfg_sig(cfg), len(nbhd), len(sim.bandit_to_neighborhood_size[name]), len(ti)), dict(wit, bandit=name),
+                    kind="nbhd_count")
+                return
+        if nbhd is not None and not big and cfg["np"]["kind"] in ("radius", "knn") and spec["X"] is not None:
             if not check_neighbourhood_records(ctx, "%s (%s)" % (name, gen.cfg_sig(cfg)), cfg, nbhd,
                                                list(sim.bandit_to_neighborhood_size[name]), arms, spec, tr, ti, bs, dict(wit, bandit=name)):
                 return
